@@ -76,7 +76,7 @@ let canon_pres (p : pres) : string =
 let n_to_string (x : n) : string = string_of_int (int_of_n x)
 
 let b = bytes_of_hex
-let zi s = z_of_int (int_of_string s)
+let zi s = z_of_dec s
 let ni s = nat_of_int (int_of_string s)
 
 let parse_op (toks : string list) : op =
